@@ -317,7 +317,7 @@ def msan_pass(prop, scenarios, seed):
             last = vlib.last_line_of_trace(tp)
             ln = (last or {}).get("ln", 0)
             sc = vlib.scenario_at(spans, min(ln + 1, spans[-1][1])) or todo[-1]
-            msg = [l for l in err.split("\n") if "MemorySanitizer" in l or "/repo/" in l][:4]
+            msg = [l for l in err.split("\n") if "MemorySanitizer" in l or (os.path.realpath(vlib.REPO).rstrip("/") + "/") in l][:4]
             res.append((sc, "MemorySanitizer: " + " | ".join(x.strip() for x in msg)[:400]))
             todo = [s for s in todo if s is not sc]
             if len(res) >= 3:
@@ -521,16 +521,16 @@ def _registry_schedules(work, threads, calls, locked):
 def _tsan_reports(err):
     """-> list of (function, location) per ThreadSanitizer report, from frames inside /repo"""
     reps = []
+    root = re.escape(os.path.realpath(vlib.REPO).rstrip("/") + "/")      # the tree the binary was built from
     for block in err.split("WARNING: ThreadSanitizer:")[1:]:
-        funcs = re.findall(r"#\d+ (\S+) (/repo/\S+?)(?::\d+)*? ", block)
+        funcs = re.findall(r"#\d+ (\S+) (" + root + r"\S+?)(?::\d+)*? ", block)
         top = funcs[0][0] if funcs else "?"
         loc = "?"
         m = re.search(r"Location is global '([^']+)'", block)
         if m:
             loc = "global " + m.group(1)
         elif "Location is heap block" in block:
-            am = re.search(r"Location is heap block.*?(#\d+ .*?\n)(?:\s+#\d+ (\S+) (/repo/\S+))", block, re.S)
-            allocs = re.findall(r"#\d+ (\S+) /repo/", block.split("Location is heap block")[1])
+            allocs = re.findall(r"#\d+ (\S+) " + root, block.split("Location is heap block")[1])
             loc = "heap block allocated in " + (allocs[0] if allocs else "?")
         kind = block.strip().split("\n")[0].strip()
         infuncs = sorted(set(f for f, _ in funcs))
